@@ -68,7 +68,9 @@ def oracle(line: str, obs: Obs):
                         if (g["hbh"], g["e2e"]) != (want["hbh"], want["e2e"]):
                             fails.append({"what": "blocked sender received an answer that does not bear its identifiers",
                                           "event": ev[:300], "real": str(g), "expected": f"hbh={want['hbh']} e2e={want['e2e']}",
-                                          "sig": "answer_waiting_hbh_only" if g["hbh"] == want["hbh"] and " | sethbh " in line else None})
+                                          # (the recorded finding is about two requests of *one* application)
+                                          "sig": "answer_waiting_hbh_only" if g["hbh"] == want["hbh"] and " | sethbh " in line and
+                                          all(w.split("_")[1] == str(ai) for w in t[4:] if w.startswith("req_")) else None})
                 continue
             if len(eligible) > 1 and len(outs) == 1 and outs[0][0] in eligible:
                 # the default selection callback takes the peer that has sent the fewest requests (the first of them on a tie);
@@ -235,6 +237,17 @@ def scenarios(rng: random.Random, tier: str):
     inner = ("req_0_" + nodegen.ccr(0, 0, "node.local", "realm2.local") + "_2_" +
              "rx~0~" + nodegen.cca(2001, 268435464, "peer2.x"))
     out.append(pre + f" | req 0 {nodegen.ccr(0, 0, 'node.local')} 3 {inner}")
+    # … and of two *different* applications (same id, one peer each) whose connections' generators coincide: each
+    # application has its own senders -- the answer to the outer request releases the outer sender only
+    cfg3 = ("NODE host=node.local;realm=realm.local;idle=9999;peer:peer2.x,realm.local,0,0,30,1,0,-,-,-,-;"
+            "peer:peer3.x,realm2.local,0,0,30,1,0,-,-,-,-;app:4,1,0,b,0,0,-;app:4,1,0,b,0,1,-")
+    pre3 = cfg3 + " | start | acc | rx 0 " + nodegen.cer("peer2.x", "4", n(), n()) + " | acc | rx 1 " + nodegen.cer("peer3.x", "4", n(), n()) + " | sethbh 1 2000"
+    inner3 = ("req_1_" + nodegen.ccr(0, 0, "node.local", "realm2.local") + "_2_" +
+              "rx~0~" + nodegen.cca(2001, 268435464, "peer2.x"))
+    out.append(pre3 + f" | req 0 {nodegen.ccr(0, 0, 'node.local')} 3 {inner3}")
+    inner3b = ("req_1_" + nodegen.ccr(0, 0, "node.local", "realm2.local") + "_2_" +
+               "rx~1~" + nodegen.cca(2001, 268435465, "peer3.x"))
+    out.append(pre3 + f" | req 0 {nodegen.ccr(0, 0, 'node.local')} 3 {inner3b}")
     # the answer comes back while the request is still being handed to the connection (a very fast peer / the sender
     # preempted right there): it is the sender's answer all the same
     prev = CFG + " | start | acc | rx 0 " + nodegen.cer("peer2.x", "4", n(), n())
